@@ -45,6 +45,7 @@ func strClass(s string) string {
 type c01Seq struct {
 	cmds      [][]string
 	unordered []bool // reply compared as canonical (sorted) tree instead of raw bytes
+	shapeOnly []bool // reply depends on connection identity or time: only framing and type are compared
 }
 
 func c01GenSeq(rng *rand.Rand, n int, pool []string) c01Seq {
@@ -67,10 +68,28 @@ func c01GenSeq(rng *rand.Rand, n int, pool []string) c01Seq {
 	add := func(unordered bool, c ...string) {
 		s.cmds = append(s.cmds, c)
 		s.unordered = append(s.unordered, unordered)
+		s.shapeOnly = append(s.shapeOnly, false)
+	}
+	addShape := func(c ...string) {
+		s.cmds = append(s.cmds, c)
+		s.unordered = append(s.unordered, false)
+		s.shapeOnly = append(s.shapeOnly, true)
 	}
 	for len(s.cmds) < n {
 		k := fmt.Sprintf("k%d", rng.Intn(2))
-		switch rng.Intn(34) {
+		switch rng.Intn(40) {
+		case 34:
+			addShape("CLIENT", "LIST")
+		case 35:
+			addShape("CLIENT", "INFO")
+		case 36:
+			addShape("INFO", pick(rng, []string{"server", "clients", "stats", "everything"}))
+		case 37:
+			addShape("INFO")
+		case 38:
+			add(false, "COMMAND", "COUNT")
+		case 39:
+			addShape("HELLO")
 		case 0:
 			add(false, "SET", k, val())
 		case 1:
@@ -147,6 +166,10 @@ func c01GenSeq(rng *rand.Rand, n int, pool []string) c01Seq {
 			add(false, "LSET", "l1", "0") // wrong arity -> error
 		}
 	}
+	// every sequence ends with the multi-line introspection replies (framing must survive them in both protocols)
+	addShape("CLIENT", "LIST")
+	addShape("INFO")
+	addShape("CLIENT", "INFO")
 	return s
 }
 
@@ -275,7 +298,7 @@ func c01Cuts(rng *rand.Rand, variant string, b []byte, bounds []int) []int {
 
 func checkC01(r *verdict.Run) {
 	r.Rule = "sequences of well-formed commands (+ sentinel ECHO) are sent to a fresh emulator once command-by-command (reference) and again with the same bytes cut differently (pipeline, every byte, inside CRLF, inside length headers, around 8192, random, mid-command); " +
-		"oracle: exactly one strictly parsed reply per command, same bytes as the reference (canonical tree for HGETALL/SMEMBERS), nothing after the sentinel; hostile byte strings must round-trip in every role; error replies must stay on one line. " +
+		"oracle: exactly one strictly parsed reply per command, same bytes as the reference (canonical tree for HGETALL/SMEMBERS), nothing after the sentinel; commands pipelined in several segments behind a blocking command (BLPOP/BRPOP/BLMOVE/BLMPOP, ended by a push or a timeout) must be answered like the command-by-command run; hostile byte strings must round-trip in every role; error replies must stay on one line. " +
 		"distinct = (variant, protocol, command, reply class) + (role, string class)"
 	nseq := tierPick(r, 24, 400)
 	maxLen := tierPick(r, 12, 40)
@@ -379,6 +402,9 @@ func checkC01(r *verdict.Run) {
 				if i < len(seq.cmds) && seq.unordered[i] {
 					same = ref[i].canon == got[i].canon
 				}
+				if i < len(seq.cmds) && seq.shapeOnly[i] {
+					same = ref[i].raw[0] == got[i].raw[0] // well-formed (already parsed strictly) and of the same type
+				}
 				if !same {
 					name := "sentinel"
 					if i < len(seq.cmds) {
@@ -393,6 +419,7 @@ func checkC01(r *verdict.Run) {
 			}
 		}
 	})
+	c01Blocked(r, pool, tierPick(r, 20, 300))
 	c01Binary(r, pool)
 	c01Errors(r, pool)
 	r.Assume("loopback TCP with TCP_NODELAY and 20 us - 2 ms pauses between writes stands in for network segmentation; the cxn:read hook reports how many server reads really ended mid-command")
@@ -590,4 +617,128 @@ func c01Errors(r *verdict.Run, pool []string) {
 		}
 		cn.Close()
 	}
+}
+
+// c01Blocked: commands pipelined behind a blocking command arrive in several segments while the connection is
+// blocked; after another client's push ends the block, every reply must equal the command-by-command run.
+func c01Blocked(r *verdict.Run, pool []string, nseq int) {
+	blockers := [][]string{{"BLPOP", "bq", "0"}, {"BRPOP", "bq", "other", "0"}, {"BLMOVE", "bq", "bdst", "LEFT", "RIGHT", "0"}, {"BLMPOP", "0", "1", "bq", "LEFT"}, {"BLPOP", "bq", "0.15"}}
+	parallel(nseq, 12, func(shard int) {
+		rng := shardRng(r, 500+shard)
+		c, err := startChild(false)
+		if err != nil {
+			r.Inconclusive("cannot start child")
+			return
+		}
+		defer c.Stop()
+		c.Ctl("record cxn:read")
+		seq := c01GenSeq(rng, 3+rng.Intn(8), pool)
+		blk := blockers[shard%len(blockers)]
+		timed := blk[len(blk)-1] == "0.15" // ends by timeout instead of a push
+		all := append([][]string{blk}, seq.cmds...)
+		nonce := fmt.Sprintf("blk-sentinel-%d", shard)
+		all = append(all, []string{"ECHO", nonce})
+		run := func(split bool) (replies [][]byte, failure string) {
+			e, err := startEmu(c, "")
+			if err != nil {
+				return nil, "infra: " + err.Error()
+			}
+			defer e.close()
+			cn, err := e.dial()
+			if err != nil {
+				return nil, "infra: " + err.Error()
+			}
+			defer cn.Close()
+			helper, err := e.dial()
+			if err != nil {
+				return nil, "infra: " + err.Error()
+			}
+			defer helper.Close()
+			cn.Timeout = 10 * time.Second
+			read := func(i int) bool {
+				_, raw, err := cn.ReadValue(cn.Timeout)
+				if err != nil {
+					failure = fmt.Sprintf("reply %d of %d (%s): %v; unparsed bytes %q", i, len(all), cmdString(all[i]), err, truncBytes(cn.Pending(), 120))
+					return false
+				}
+				replies = append(replies, raw)
+				return true
+			}
+			if !split {
+				// reference: the element is there before the blocking command, everything one command at a time
+				if !timed {
+					helper.Do("RPUSH", "bq", "pushed")
+				}
+				for i, cmd := range all {
+					cn.Send(resp.Cmd(cmd...))
+					if !read(i) {
+						return
+					}
+				}
+				return
+			}
+			var b []byte
+			for _, cmd := range all {
+				b = append(b, resp.Cmd(cmd...)...)
+			}
+			first := len(resp.Cmd(blk...))
+			// the blocking command alone, then the rest in several delayed segments while the connection is blocked
+			cuts := []int{first}
+			pos := first
+			for {
+				pos += 1 + rng.Intn(30)
+				if pos >= len(b) {
+					break
+				}
+				cuts = append(cuts, pos)
+			}
+			if err := cn.SendCuts(b, cuts, time.Duration(300+rng.Intn(1500))*time.Microsecond); err != nil {
+				return nil, "send: " + err.Error()
+			}
+			time.Sleep(20 * time.Millisecond)
+			if !timed {
+				helper.Do("RPUSH", "bq", "pushed")
+			}
+			for i := range all {
+				if !read(i) {
+					return
+				}
+			}
+			if extra := cn.Quiet(30 * time.Millisecond); len(extra) > 0 {
+				failure = fmt.Sprintf("%d unexpected bytes after the last reply: %q", len(extra), truncBytes(extra, 120))
+			}
+			return
+		}
+		ref, fail := run(false)
+		if strings.HasPrefix(fail, "infra") {
+			r.Inconclusive(fail)
+			return
+		}
+		rep := map[string]any{"commands": all}
+		if fail != "" {
+			r.Report("c01/blocked-pipeline/reference/"+c01FailClass(fail), "command-by-command run: "+fail, rep)
+			return
+		}
+		got, fail := run(true)
+		r.Eval(1)
+		if strings.HasPrefix(fail, "infra") {
+			r.Inconclusive(fail)
+			return
+		}
+		if fail != "" {
+			r.Report("c01/blocked-pipeline/"+c01FailClass(fail), fmt.Sprintf("commands pipelined in several segments behind %s: %s", cmdString(blk), fail), rep)
+			return
+		}
+		for i := range ref {
+			same := bytes.Equal(ref[i], got[i])
+			if i >= 1 && i-1 < len(seq.cmds) && (seq.unordered[i-1] || seq.shapeOnly[i-1]) {
+				same = ref[i][0] == got[i][0]
+			}
+			if !same {
+				r.Report("c01/blocked-pipeline/reply-differs", fmt.Sprintf("reply %d (%s) behind %s differs from the command-by-command run:\n reference %q\n split     %q", i, cmdString(all[i]), cmdString(blk), truncBytes(ref[i], 200), truncBytes(got[i], 200)), rep)
+				break
+			}
+		}
+		r.Distinct(fmt.Sprintf("blocked-pipeline/%s/%d-commands", blk[0], len(seq.cmds)))
+	})
 }
